@@ -144,9 +144,11 @@ def run(ck, ctx):
     parse_error(ck, ctx)
     flatten(ck, ctx)
     S.nul_typestate(ck, ctx, ["depfile::parse"], rule="typestate")
+    ck.extra.pop("typestate_raw_exits", None)
     S.scanner_axioms(ck, ctx, rule="scanner-axioms")
     S.inputs_nul_terminated(ck, ctx, rule="inputs")
 
 
 def run_config(ck, ctx):
     S.nul_typestate(ck, ctx, ["depfile::parse"], rule="typestate")
+    ck.extra.pop("typestate_raw_exits", None)
